@@ -164,6 +164,19 @@ func TestClean(t *testing.T) {
 			}
 			blob := core.Unwrap(w).Accepted
 			c.Sig("n%d/v%v/rf%v", len(ch), valid, wp.ReaderFrom)
+			if valid && len(ch) >= 2 && c.Chance("aliasedElement", 1, 10) && c.Oracle("C17") {
+				// a chain in which the very same element object stands first and again later: the
+				// later position then carries an OCSP response, which only the first may
+				obj := toRepo(ch)
+				obj[c.Int("aliasedElement.at", 1, len(obj)-1)] = obj[0]
+				var sink bytes.Buffer
+				var aerr error
+				c.Guard("CertChain.Write", func() { aerr = obj.Write(&sink) })
+				if aerr == nil {
+					c.Violation("invalid-chain-written", "CertChain.Write/aliased-element", "a chain whose first element object also stands at a later position (so that position carries an OCSP response) was written")
+				}
+				c.Probe("chain with the first element object repeated later")
+			}
 			if !valid {
 				if c.Oracle("C17") {
 					if err == nil {
@@ -226,6 +239,22 @@ func TestClean(t *testing.T) {
 					g := got[i]
 					if !bytes.Equal(g.Cert.Raw, lc.der) || !bytes.Equal(g.OCSPResponse, lc.ocsp) || !bytes.Equal(g.SCTList, lc.sct) || (g.OCSPResponse == nil) != (lc.ocsp == nil) || (g.SCTList == nil) != (lc.sct == nil) {
 						c.Violation("roundtrip", "ReadCertChain", "certificate %d differs after the round trip", i)
+					}
+				}
+			}
+			// the same bytes once more, through whatever Go type the caller happens to hold them in
+			// (a file or section positioned behind other data, a pipe, a bufio.Reader ...)
+			if c.Oracle("C17", "C12") && rerr == nil {
+				got2, rerr2, pi2, _ := readChain(c, blob, c.DrawReaderPlan("certnet.read2", len(blob), false))
+				if pi2 != nil {
+					c.CheckTotal("ReadCertChain", len(blob), pi2, 0)
+				}
+				if rerr2 != nil || len(got2) != len(ch) {
+					c.Violation("read-error", "ReadCertChain/other-source-type", "the writer's output, read through another reader type: %v (%d certificates of %d)", rerr2, len(got2), len(ch))
+				}
+				for i, lc := range ch {
+					if g := got2[i]; !bytes.Equal(g.Cert.Raw, lc.der) || !bytes.Equal(g.OCSPResponse, lc.ocsp) || !bytes.Equal(g.SCTList, lc.sct) {
+						c.Violation("roundtrip", "ReadCertChain/other-source-type", "certificate %d differs after the round trip", i)
 					}
 				}
 			}
